@@ -321,3 +321,24 @@ def out_params_written(ctx, rel, rule, min_funcs=1):
                    "direction is counted twice)", f.lineno)
     ctx.floor(f"{rule}:{rel}", n, min_funcs)
     return n
+
+
+def alphabets_fit_matrix(ctx, rel, qual, rule, pairs=(("1", "seq1"), ("2", "seq2"))):
+    """an aligner indexes the substitution matrix with the symbol codes of both sequences without bounds checks: BOTH alphabets
+    must be known to fit before anything else happens - at the end of the function's set-up the facts
+    `matrix.get_alphabetK().extends(seqK.get_alphabet())` hold for K = 1 and 2 (a guard that raises when either fails)"""
+    from . import facts
+    from .exprnorm import spec, canon
+    import copy as _copy
+    f = ctx.src(rel).func(qual)
+    # the refusing guard (possibly under an opt-out flag such as check_matrix): what holds when it does not raise
+    guards = [st for st in ast.walk(f) if isinstance(st, ast.If) and not st.orelse and st.body and isinstance(st.body[-1], ast.Raise)
+              and any(isinstance(c, ast.Call) and isinstance(c.func, ast.Attribute) and c.func.attr == "extends" for c in ast.walk(st.test))]
+    known = set()
+    for g in guards[:1]:
+        for cj in facts.conjuncts(facts.negate(_copy.deepcopy(g.test))):
+            known.add(canon(cj))
+    missing = [k for k, sq in pairs if spec(f"matrix.get_alphabet{k}().extends({sq}.get_alphabet())") not in known]
+    ctx.ob(rule, rel, qual, "both sequence alphabets are checked against the matrix before the tables are filled", not missing,
+           f"after the argument checks it is not established that alphabet {missing[0] if missing else ''} of the matrix extends the alphabet of its "
+           "sequence (e.g. `not (a or b)` refuses only when BOTH fail): symbol codes then index the score matrix out of bounds", f.lineno)
